@@ -366,7 +366,8 @@ class Prop:
             "channel from inside Run() (chains of depth 1-5; 60% of the cases are chain-heavy and answer the chained calls until "
             "the chains run out); peer responses for outstanding, answered (duplicate), never-issued and guessed ids with "
             "payload / unparsable payload / error / both / neither; requests for existing and missing services and methods, "
-            "unparsable request payloads, synchronous and deferred done; ERROR-typed messages; channel destruction. Non-trivial = "
+            "unparsable request payloads, synchronous and deferred done; ERROR-typed messages; a new connection handed to the same "
+            "channel object while calls are outstanding (reconn); channel destruction. Non-trivial = "
             "at least one closure ran or one reply was produced; distinct = distinct observation traces")
     trusted_base = [
         "Lean 4.33.0 kernel; axioms allowed: propext, Classical.choice, Quot.sound",
@@ -566,6 +567,39 @@ class Prop:
             mismatch = ctx.compare(case, impl, model)
         return impl, fails, mismatch
 
+    def id_stress(self, ctx, flavour):
+        """"Call ids on a channel are unique even when calls are issued from several threads": n threads issue k calls each on
+        one channel at the same time (free-running, nothing answers), then the loop carries the frames to the raw peer.  Oracle
+        only - the model takes the id fetch as one atomic step (`idFetch`, extracted); here the real threads run: every id read
+        from the wire must be distinct and there must be one frame per call."""
+        n, k = (6, 4000) if ctx.quick() else (8, 25000)
+        lines = ["flavour " + flavour, "chan 0 client", "idstress 0 %d %d" % (n, k)] + ["iter"] * 60
+        case = Case("rpc", lines, "idstress:" + flavour)
+        impl, _err = ctx.run_impl(self.exe(ctx, flavour), case, timeout=600)
+        ids = []
+        crashed = None
+        for b in impl:
+            for l in b:
+                m = re.match(r"c0 sent id=(\d+)", l)
+                if m:
+                    ids.append(int(m.group(1)))
+                if l.startswith("<<") or l in ("abort", "hang"):
+                    crashed = l
+        ctx.count("idstress-calls", n * k)
+        ctx.extra.setdefault("idstress", []).append({"flavour": flavour, "threads": n, "calls_per_thread": k, "frames": len(ids),
+                                                     "distinct_ids": len(set(ids))})
+        ctx.record(case, impl[:3], nontrivial=True, sample={"origin": "idstress", "ops": lines[:3], "events": ["%d frames, %d distinct ids" % (len(ids), len(set(ids)))]})
+        if crashed:
+            ctx.oracle_failures.append((case, "crash", "idstress: %s" % crashed))
+        elif len(set(ids)) != len(ids):
+            dup = sorted(i for i in set(ids) if ids.count(i) > 1)[:5] if len(ids) < 200000 else []
+            ctx.oracle_failures.append((case, "duplicate-id", "%d threads x %d concurrent calls on one channel: %d frames carry only %d "
+                                        "distinct ids (e.g. %s): two calls share an id, the response to one completes the other "
+                                        "and one of them never completes" % (n, k, len(ids), len(set(ids)), dup)))
+        elif len(ids) != n * k:
+            ctx.oracle_failures.append((case, "request-not-sent", "%d calls made, %d REQUEST frames reached the peer within 60 "
+                                        "iterations" % (n * k, len(ids))))
+
     def header_len(self, lines):
         n = 0
         for l in lines:
@@ -627,7 +661,8 @@ class Prop:
             ctx.mismatches.append((Case("rpc", small, origin), mm or mismatch))
 
     def stop(self, ctx):
-        return self.new_failures >= 1 or len(ctx.mismatches) >= 2
+        # (when an obligation or a tie broke the model is no reference: disagreements with it do not end the search early)
+        return self.new_failures >= 1 or len(ctx.mismatches) >= (24 if ctx.search_mode else 2)
 
     @staticmethod
     def read_case(path):
@@ -640,6 +675,11 @@ class Prop:
         self.new_failures = 0
         if replay:
             lines = self.read_case(replay)
+            if any(l.startswith("idstress ") for l in lines):
+                self.id_stress(ctx, self.flavour_of(lines, "ndebug"))
+                for c, k, d in ctx.oracle_failures:
+                    print("property violated on the implementation [%s]: %s" % (k, d))
+                return
             impl, fails, mismatch = self.evaluate(ctx, lines)
             model = ctx.run_model(Case("rpc", lines), impl) if ctx.model_ok else []
             ops = [l for l in lines if l.strip()]
@@ -655,6 +695,10 @@ class Prop:
             return
         flavours = ["dbg", "ndebug"] if ctx.quick() else ["dbg", "ndebug", "asan", "asan-ndebug", "tsan"]
         ctx.extra["flavours"] = flavours
+        if ctx.search_mode:
+            self.id_stress(ctx, "ndebug")       # oracle only: before anything that is compared with the model
+            if ctx.oracle_failures:
+                return
         # corpus first: the cases carry their own flavour line; a case without one runs in every flavour
         for p in sorted(glob.glob(os.path.join(CORPUS, "C19", "*.case"))):
             lines = self.read_case(p)
@@ -666,6 +710,10 @@ class Prop:
                 self.run_case(ctx, ls, "corpus:" + os.path.basename(p))
                 ctx.count("corpus_cases")
         if self.stop(ctx):
+            return
+        if not ctx.search_mode:
+            self.id_stress(ctx, "ndebug")
+        if self.stop(ctx) or ctx.oracle_failures:
             return
         per = {"dbg": 260, "ndebug": 200} if ctx.quick() else {"dbg": 1500, "ndebug": 1500, "asan": 600, "asan-ndebug": 600, "tsan": 250}
         if ctx.search_mode:
